@@ -132,6 +132,13 @@ func main() {
 		for _, s := range listFuncs(p) {
 			fmt.Println(s)
 		}
+	case "nilscan":
+		p, err := loadProgram(LoadOpts{})
+		if err != nil {
+			fmt.Println("ERR", err)
+			os.Exit(1)
+		}
+		nilScan(p)
 	case "balance":
 		p, err := loadProgram(LoadOpts{})
 		if err != nil {
